@@ -81,11 +81,14 @@ POOL = [
     # the same words in another letter case (a memo keyed by the lower-cased text would hand back the other call's matches: subject words keep their case)
     {"text": "zzq tomorrow at 5pm xqz #w", "ts": TS1, "kw": {}},
     {"text": "zzq Tomorrow at 5PM xqz #W", "ts": TS1, "kw": {}},
+    # the same match layout with and without an unmatched character between two tokens (a memo keyed by match positions would carry the gap decision over)
+    {"text": "05.03.2019@09:30", "ts": TS1, "kw": {}},
+    {"text": "05.03.2019 09:30", "ts": TS1, "kw": {}},
 ]
 TS_COMPONENT = [23, 24, 25]
 SHIFT_PAIRS = [(13, 14), (15, 16), (17, 18), (19, 20), (21, 22)]
 FAIL = 7
-CALLABLE = list(range(13)) + [13, 14, 23, 24, 25, 27, 28, 29, 30, 31, 32, 33]  # history alphabet (the offset-shift pairs beyond #14 are exercised by the stream merges)
+CALLABLE = list(range(13)) + [13, 14, 23, 24, 25, 27, 28, 29, 30, 31, 32, 33, 34, 35]  # history alphabet (the offset-shift pairs beyond #14 are exercised by the stream merges)
 OPENABLE = [0, 3, 5, 9, 10, 13]
 MERGE_POOL = [0, 1, 3, 4, 5, 8, 9, 10, 11, 12]
 SCHED_PAIRS_QUICK = [(9, 6, "one", "one"), (9, 9, "gen", "one")]
@@ -340,7 +343,9 @@ def plan(tier, seed):
     cases = list(gen())
     for i, (a, b, ka, kb) in enumerate(WSCAN_PAIRS if tier == "thorough" else WSCAN_PAIRS[:4]):
         cases.insert(i * 24, ("wscan", a, b, ka, kb))
-    return {"space": space, "cases": cases, "chunk": 24, "hash_distinct": True, "maxtasksperchild": 1}
+    # every case runs in a forked child of a worker that has imported the library but never parsed anything: what one case leaves behind
+    # (a filled memo, a warmed cache) can neither mask nor cause what the next one observes
+    return {"space": space, "cases": cases, "chunk": 24, "hash_distinct": True, "isolate": True}
 
 
 def _fp():
